@@ -186,11 +186,15 @@ def classify(ctx, res, prefixes):
 
 
 def check_drift(ctx, results):
+    """A behaviour the code did not follow although no (unlisted) property failure explains it: the model is not the code's."""
     div = sum(r.get("stats", {}).get("diverged", 0) for r in results)
     unstable = sum(r.get("stats", {}).get("unstable", 0) for r in results)
-    if div and not ctx.violations:
-        notes = [n for r in results for n in r.get("notes", [])][:3]
-        raise lib.Inconclusive("model drift: %d behaviours were not followed by the code although no property failed: %s" % (div, notes))
+    notes = [x for r in results for x in r.get("notes", []) if "diverged" in x]
+    ctx.notes.extend(notes[:10])
+    known = {k.get("key") for k in lib.load_known() if k.get("property") == ctx.pid}
+    unlisted = [v for v in ctx.violations if v.get("key") not in known]
+    if div and not unlisted:
+        raise lib.Inconclusive("model drift: %d behaviours were not followed by the code although no property failed: %s" % (div, notes[:3]))
     return div, unstable
 
 
